@@ -348,12 +348,19 @@ def part_streams(ctx):
     ctx.hyp('streams', st.binary(min_size=260, max_size=260), body, max_examples=800 if ctx.quick else 6000)
 
 
+def part_fuzz(ctx):
+    """Coverage-guided bytes -> text -> round-trip + well-formedness oracles (thorough tier; needs atheris)."""
+    corpus = [b'abcabcabc', b'function _update60()\nend\n', b'\x80\x80\x80a\x80\x80\x80', b'x=1 x=1 x=1 y=2\n',
+              b'print("hello world")\n' * 3]
+    ctx.fuzz('c05', runs=60000, max_len=400, corpus=corpus)
+
+
 def parts(tier):
     if tier == 'quick':
         return [('short', part_short, 8), ('text', part_text, 2), ('repeats', part_repeats, 2),
                 ('prefixes', part_prefixes, 1), ('streams', part_streams, 1)]
     return [('short', part_short, 16), ('text', part_text, 6), ('repeats', part_repeats, 8),
-            ('prefixes', part_prefixes, 2), ('streams', part_streams, 4)]
+            ('prefixes', part_prefixes, 2), ('streams', part_streams, 3), ('fuzz', part_fuzz, 2)]
 
 
 def replay(case):
